@@ -268,4 +268,88 @@ def subtWeight (l m r : Int) (cap : Option Int) (mv : Move) (ops : List Int) : E
   let r' := if mv = .wf then cap.getD r else r
   computeWeightM ops l m r' mv
 
+/-! ### 6. audit additions: `load_paths` with the state's own size, `run_md` over all its trials
+
+Found by the independent audit: `loadPathsWeights` above weighs every path it is given, whereas the code loops over
+`range(size - 1)` with `size = self.n - 1` taken from `config["current"]["size"]` — a list that is shorter raises
+IndexError, paths beyond `size` are never looked at (their `weights` stay `None`).  `runMdWeights` above is ONE call of
+`calc_cv_vector`; `run_md` loops over `zip(trials, picked.keys())` (two trials after a zero swap), each trial with the
+`minus` flag of its OWN ensemble number, and touches `mc_moves[ens_num + 1]` and `trial.ordermin` before. -/
+
+/-- the loop `for i in range(size - 1)`: `k` iterations left, next path index `j` (`paths[i + 1]`) -/
+def loadPlusIdx (interfaces : List Int) (moves : List Move) (lm1 cap : Option Int) (paths : List (List Int)) :
+    Nat → Nat → Except Err (List (List Nat))
+  | _, 0 => .ok []
+  | j, k + 1 =>
+    match paths[j]? with
+    | none => .error .index
+    | some p =>
+      match loadPathWeights interfaces moves lm1 cap p with
+      | .error e => .error e
+      | .ok w =>
+        match loadPlusIdx interfaces moves lm1 cap paths (j + 1) k with
+        | .error e => .error e
+        | .ok ws => .ok (w :: ws)
+
+/-- `REPEX_state.load_paths(paths)` for a state with `size = self.n - 1` (= `config["current"]["size"]`): the plus
+    paths `paths[1] … paths[size - 1]` in order (IndexError when one is missing, first error wins), THEN
+    `paths[0].weights = (1.0,)` (IndexError on an empty list).  One entry per given path; `none` = the path was never
+    looked at (`weights` stays `None`). -/
+def loadPathsWeightsN (size : Nat) (interfaces : List Int) (moves : List Move) (lm1 cap : Option Int)
+    (paths : List (List Int)) : Except Err (List (Option (List Nat))) :=
+  match loadPlusIdx interfaces moves lm1 cap paths 1 (size - 1) with
+  | .error e => .error e
+  | .ok ws =>
+    match paths with
+    | [] => .error .index
+    | _ :: rest => .ok (some [1] :: (ws.map some ++ List.replicate (rest.length - ws.length) none))
+
+/-- Python's `lst[i]` succeeds: `0 ≤ i < len` or `-len ≤ i < 0` -/
+def pyIndexOk (len : Nat) (i : Int) : Bool :=
+  if 0 ≤ i then decide (i < (len : Int)) else decide (-i ≤ (len : Int))
+
+/-- one iteration of the loop in `run_md` (tis.py:88-104): `md_items["mc_moves"][ens_num + 1]` (IndexError), then
+    `trial.ordermin` (ValueError on an empty trial) — both whatever the status —, then, only for status "ACC",
+    `calc_cv_vector(trial, interfaces, mc_moves, picked[ens_num]["ens"]["tis_set"]["lambda_minus_one"],
+    cap=md_items["cap"], minus=ens_num < 0)`.  `none` = `trial.weights` not assigned. -/
+def runMdOne (interfaces : List Int) (moves : List Move) (cap : Option Int) (acc : Bool) (ens : Int)
+    (lm1 : Option Int) (ops : List Int) : Except Err (Option (List Nat)) :=
+  if pyIndexOk moves.length (ens + 1) = false then .error .index
+  else if ops.isEmpty then .error .value
+  else if acc then
+    match runMdWeights interfaces moves lm1 cap ens ops with
+    | .error e => .error e
+    | .ok w => .ok (some w)
+  else .ok none
+
+/-- `for trial, ens_num in zip(trials, picked.keys())`: stops with the shorter list, first error wins -/
+def runMdAll (interfaces : List Int) (moves : List Move) (cap : Option Int) (acc : Bool) :
+    List (List Int) → List (Int × Option Int) → Except Err (List (Option (List Nat)))
+  | [], _ => .ok []
+  | _ :: _, [] => .ok []
+  | t :: ts, (e, lm1) :: ks =>
+    match runMdOne interfaces moves cap acc e lm1 t with
+    | .error er => .error er
+    | .ok w =>
+      match runMdAll interfaces moves cap acc ts ks with
+      | .error er => .error er
+      | .ok ws => .ok (w :: ws)
+
+/-! ### 7. the property's sub-paths without scan state (specification of `path_arr`)
+
+Walking the path once with `pred` = index and value of the nearest outside frame seen so far and `run` = number of
+inside frames since: a sub-path `(entry index, exit index, run)` is listed at every outside frame that ends a
+non-empty inside run whose two bounding frames are not both on the right.  No keys, no five-branch chain. -/
+def segsFrom (l r : Int) : Option (Nat × Int) → Nat → Nat → List Int → List (Nat × Nat × Nat)
+  | _, _, _, [] => []
+  | pred, run, i, x :: t =>
+    if inside l r x then segsFrom l r pred (run + 1) (i + 1) t
+    else
+      (match pred with
+       | some (j, p) => if run ≠ 0 ∧ ¬ (p ≥ r ∧ x ≥ r) then [(j, i, run)] else []
+       | none => []) ++ segsFrom l r (some (i, x)) 0 (i + 1) t
+
+/-- the valid sub-paths of `[l, r)` in path order: what `path_arr` has to be -/
+def specSegs (l r : Int) (ops : List Int) : List (Nat × Nat × Nat) := segsFrom l r none 0 0 ops
+
 end Infretis.WFExt
